@@ -148,8 +148,8 @@ func check(p params, o *sx.Obs, x *vsched.Sched) kit.Result {
 			}
 			fire := -1
 			for _, f := range x.TimerFires {
-				if f <= s.step {
-					fire = f
+				if f.Step <= s.step {
+					fire = f.Step
 				}
 			}
 			if fire > recvStep {
